@@ -179,8 +179,6 @@ Proof.
     rewrite Z.pow_add_r by lia. change (2 ^ 32) with (256 ^ 4). ring.
 Qed.
 
-Lemma slice_0 buf n : slice buf 0 n = firstn (Z.to_nat n) buf.
-Proof. unfold slice. rewrite Z.sub_0_r. reflexivity. Qed.
 
 (* _parse_mpint on a non-negative number: pads to a multiple of four and reads the big-endian value *)
 Lemma parse_mpint_raw_nonneg buf pos len off : 0 <= len -> 0 <= pos -> 0 <= off -> pos + off + len <= zlen buf ->
